@@ -17,6 +17,7 @@ import json
 import os
 import sys
 from common import Infra, ndjson
+from fn_lib import judge_cases, load_batches
 
 
 def replay(ctx, b):
@@ -54,16 +55,13 @@ def run(ctx):
     cases = os.path.join(ctx.work, "cases.ndjson")
     hg = ctx.harness([b, "gen", cases], timeout=600)
     ncases = hg["summary"]["cases"]
-    rc = ctx.tlc("fn/CheckedCases", "cfg/CheckedCases.cfg", timeout=3000, tag="cases",
-                 files={"cases.ndjson": open(cases).read()})
-    if not rc.ok:
-        raise Infra("TLC failed while judging the recorded cases: violated=%s error=%s\n%s" % (rc.violated, rc.error, rc.out[-2000:]))
-    hc = ctx.harness([b, "cmp", cases, rc.path], timeout=900)
+    expect, cruns = judge_cases(ctx, "fn/CheckedCases", "cfg/CheckedCases.cfg", cases, chunk=100000)
+    hc = ctx.harness([b, "cmp", cases, expect], timeout=900)
     if hc["summary"].get("cases") != ncases:
         raise Infra("compared %s of %d cases" % (hc["summary"].get("cases"), ncases))
     samples += hc["samples"][:4]
     # ---- negative control: one corrupted expectation must be reported by the comparer
-    docs = list(rc.exports())
+    docs = load_batches(expect)
     flipped = None
     for batch in docs:
         for e in batch:
@@ -79,8 +77,8 @@ def run(ctx):
         raise Infra("negative control: corrupted expectation %s was not reported by the comparer" % flipped)
     calls = ht["summary"]["calls"] + hc["summary"]["calls"]
     ctx.finish("model_checking", dict(
-        states=sum(d.distinct for d in designs) + rt.distinct + rc.distinct,
-        transitions=sum(d.generated for d in designs) + rt.generated + rc.generated,
+        states=sum(d.distinct for d in designs) + rt.distinct + sum(r.distinct for r in cruns),
+        transitions=sum(d.generated for d in designs) + rt.generated + sum(r.generated for r in cruns),
         traces_validated_against_impl=calls,
         evaluations=calls,
         distinct_nontrivial=hc["summary"]["expected_failures"],
